@@ -66,8 +66,8 @@ Example roundtrip_instances :
   has_type orc (TInt KInt8) (GInt KInt8 128) = false /\
   has_type orc TString (GString []) = true /\ has_type orc TString (GString ["255"%byte]) = true /\
   has_type orc TTime (GTime 2020 2 29 0 0 0 0 true) = true /\ has_type orc TTime (GTime 9999 12 31 23 59 59 999999999 false) = true /\
-  (exists st w y, enc false [] 5 einit (GInt KUint64 18446744073709551615) = EOk st w /\
-                  dec_top orc {| o_simple := false; o_long := LtInt; o_real := RlF64; o_simap := false; o_structval := false;
-                                 o_listslice := false; o_registered := [] |} [] 5 (TInt KUint64) w = OOk y /\
-                  same y (GInt KUint64 18446744073709551615) = true).
-Proof. vm_compute. repeat split; try reflexivity. do 3 eexists. repeat split; reflexivity. Qed.
+  enc false [] 5 einit (GInt KUint64 18446744073709551615) = EOk einit (WLong 18446744073709551615) /\
+  dec_top orc {| o_simple := false; o_long := LtInt; o_real := RlF64; o_simap := false; o_structval := false;
+                 o_listslice := false; o_registered := [] |} [] 5 (TInt KUint64) (WLong 18446744073709551615)
+    = OOk (XInt KUint64 18446744073709551615).
+Proof. cbv zeta. do 8 (split; [vm_compute; reflexivity|]). vm_compute; reflexivity. Qed.
